@@ -42,6 +42,9 @@ def model_check(rep, tier, scratch):
         res = tlc.run_tlc('Sampler', cfg, workers=common.NCPU, timeout=to)
         rep.add_tlc(res, 'Sampler.tla/' + label)
         if res.timeout:
+            if label != 'core_with_minus_inf':
+                # these configurations finish in seconds: a timeout means the specification (or the machine) is broken
+                raise tlc.TLCError('TLC configuration %s did not finish within %d s' % (label, to))
             rep.notes.append('TLC %s: time-boxed (%ds), %d states explored, no violation' % (label, to, res.states))
             continue
         if not res.ok:
